@@ -332,9 +332,15 @@ Section Write.
     (if nonempty key then [32] ++ key ++ [58] ++ value
      else if nonempty value then 32 :: value else []) ++ [10].
 
+  (* optionIniName; an option added with Group.AddOption has no struct field and is written
+     under its long name (LongNameWithNamespace: such options live in the own group of a
+     command, which carries no namespace in the modelled domain), else its short name *)
   Definition option_ini_name (o : opt) (fl : oflags) : str :=
     if nonempty (f_ininame fl) then f_ininame fl
-    else if nonempty (o_ininame o) then o_ininame o else o_field o.
+    else if nonempty (o_ininame o) then o_ininame o
+    else if nonempty (o_field o) then o_field o
+    else if nonempty (o_long o) then o_long o
+    else encode_rune (o_short o).
 
   (* text of convertToString, errors ignored as the writer does (`v, _ :=`) *)
   Definition cts (o : opt) (t : vtype) (v : value) : res str :=
@@ -409,7 +415,10 @@ Section Write.
                  else namespace in
     bind (write_opts (grp_opts g) r) (fun ow =>
       let '(body, any) := ow in
-      Ok (if any then s2l "[" ++ sname ++ s2l "]" ++ [10] ++ body ++ (if include_comments then [] else [10]) else [])).
+      (* the own group of the parser itself (always the first group written) belongs to the
+         global section, which has no header; any other group gets its header, even an empty one *)
+      Ok (if any then (if is_cmd_group && negb (nonempty sname) then [] else s2l "[" ++ sname ++ s2l "]" ++ [10]) ++ body ++
+                      (if include_comments then [] else [10]) else [])).
 
   Fixpoint write_command (fuel : nat) (c : command) (namespace : str) (r : rt) : res str :=
     match fuel with
